@@ -126,7 +126,7 @@ def run_abstract(chk, quick, rnd):
         k = int(e["group"][2:])
         if clause == "interior":
             continue
-        sig = f"C07|abstract-{clause}|add={tls[k]['addp'] or 'none'}|kinds={'+'.join((x['dev'] or ('scalar' if x['scalar'] else 'plain')) for x in tls[k]['p'])}"
+        sig = f"C07|abstract-{clause}|add={tls[k]['addp'] or 'none'}|name={','.join(names_)}"
         if sig in seen:
             continue
         seen.add(sig)
@@ -136,3 +136,50 @@ def run_abstract(chk, quick, rnd):
     for tl in tls:
         chk.distinct("tl:" + repr(tl))
     shutil.rmtree(d, ignore_errors=True)
+
+
+def replay_registration(chk, quick):
+    """MC_Register histories -> real policy_info decorator -> TLC verdict (Trace_Timeline, k = register)."""
+    import c07
+    from _gettsim.shared import ConflictingTimeDependentFunctionsError, policy_info
+
+    dump = chk.work / "reg"
+    res = tlc.run("MC_Register", "MC_Register.cfg", workdir=chk.work, workers=4, dump=dump, timeout=600)
+    if res.violated:
+        chk.violation(f"C07|spec-theorem|register|{','.join(res.violated)}", "registration discipline does not give one implementation per day", {"out": res.out[-2000:]})
+        return
+    chk.add_mc(res, "MC_Register")
+    states = tlaval.read_dump(str(dump) + ".dump")
+    Path(str(dump) + ".dump").unlink()
+    events = []
+    for k, st in enumerate(states):
+        h = st.get("hist") or []
+        if not h:
+            continue
+        key = f"verif_reg_{chk.seed}_{k}"
+        attempts = []
+        for i, a in enumerate(h):
+            def f():
+                return 0.0
+
+            f.__name__ = f"{key}_impl{i}"
+            ok = True
+            try:
+                policy_info(start_date=f"2001-01-0{a['s']}", end_date=f"2001-01-0{a['e']}", name_in_dag=key)(f)
+            except ConflictingTimeDependentFunctionsError:
+                ok = False
+            attempts.append({"s": a["s"], "e": a["e"], "ok": ok})
+        events.append({"k": "register", "attempts": attempts})
+    raw_file = chk.work / "raw_reg.json"
+    tlc.write_json(raw_file, {"groups": [], "impls": []})
+    chk.count(len(events))
+    bad, stats, meta = c07.judge(chk, raw_file, events, "reg")
+    chk.cov["traces_validated_against_impl"] += len(events)
+    chk.notes["registration_histories_replayed"] = len(events)
+    for idx, clause, _ in bad[:3]:
+        chk.violation("C07|register-overlap-test", f"policy_info accepted/rejected a dated implementation against the inclusive-overlap rule ({len(bad)} histories)", {"attempts": events[idx]["attempts"]})
+    # clean the registry entries this replay created
+    from _gettsim.shared import TIME_DEPENDENT_FUNCTIONS
+
+    for k in [k for k in TIME_DEPENDENT_FUNCTIONS if k.startswith("verif_reg_")]:
+        del TIME_DEPENDENT_FUNCTIONS[k]
